@@ -290,7 +290,7 @@ def gen_cases(seed, chunk, n, tier):
 
 
 def run(ctx):
-    n = 1200 if ctx.tier == "quick" else 25000
+    n = 6000 if ctx.tier == "quick" else 40000
     stream.run_stream(ctx, "build", "harness.props.c16", "gen_cases", n, per_chunk=80,
                       canon_kw=dict(drop_zero=False))
 
